@@ -164,8 +164,11 @@ def movable_definitions(path, text):
     T = __import__("pdpy11.types", fromlist=["x"])
     ops = __import__("pdpy11.operators", fromlist=["x"])
     R = p.reports
-    with R.handle_reports(lambda *a: None):
-        f = p.parser.parse(path, text)
+    try:
+        with R.handle_reports(lambda *a: None):
+            f = p.parser.parse(path, text)
+    except R.UnrecoverableError:
+        return [], []
     top = f.body.insns
 
     def position_free(tok):
@@ -308,9 +311,13 @@ def run_shard(spec, ctx):
                 text = f.read()
             defs, bounds = movable_definitions(src, text)
             ctx.extra.setdefault("practice_movable_definitions", {})[name] = len(defs)
+            base_out = driver.assemble([(src, text)], timeout=300)
+            if base_out.kind != "ok":
+                ctx.case(("practice-broken", name), True, ["practice-variant"])
+                ctx.fail("practice:original-broken", f"{name}: the unmodified practice program gives {oracle.brief(base_out)}", {"kind": "practice", "name": name, "seed": 0})
+                continue
             if not defs or not bounds:
                 continue
-            base_out = driver.assemble([(src, text)], timeout=300)
             for v in range(spec["variants"]):
                 sd = core.seed_for(ctx.seed, name, v)
                 picks = []
